@@ -22,7 +22,10 @@ EXPLANATION = (
     "channel axis when the file's channel spacing is positive, the header built for the reader describes descending order "
     "under that same condition; (R5) unpack/scale/offset/weight are applied in that order on the (samples, pols, chans) "
     "cube and the shape is validated; (R6) sample counts, shapes, sampling time, depth, channel frequencies and the start epoch "
-    "are read from the PSRFITS keys/columns that define them. Not decided: sample values, scale/offset arithmetic, multi-polarisation sums."
+    "are read from the PSRFITS keys/columns that define them; (R7) the samples stay float32 from read_subint to what read_plan yields: no numpy "
+    "float64 scalar (np.sqrt(2.0), np.float64(...), ...) is combined with the float32 sample arrays - under NumPy 2 promotion that makes the block "
+    "float64, which the typed streaming kernels reject while read_block (which casts) still works. Not decided: sample values, scale/offset arithmetic, "
+    "multi-polarisation sums."
 )
 READERS = "sigpyproc.readers"
 PFITS = "sigpyproc.io.pfits"
@@ -139,6 +142,79 @@ def _static_type(prog: Program, fn: FuncInfo, e: ast.AST, at: int | None = None,
             return ("plain", f".{e.attr} of {inner[1]}")
         return ("unknown", f".{e.attr} of {inner[1]}")
     return ("unknown", norm(e)[:40])
+
+
+F64_SCALAR_FUNCS = {"np.sqrt", "np.float64", "np.double", "np.log", "np.log2", "np.log10", "np.exp", "np.mean", "np.median", "np.std", "np.sum",
+                    "math.sqrt"}   # math.* give Python floats (weak), listed separately below
+WEAK_FUNCS = {"math.sqrt", "math.log", "math.exp", "float", "int", "round", "abs", "max", "min"}
+F32_FUNCS = {"np.float32"}
+
+
+def _sample_dtype(prog: Program, res: Result) -> None:
+    """R7: a small dtype abstract interpretation of the PSRFITS sample path (read_subint, read_subint_pol, read_subints):
+    float32 arrays combined with Python numbers stay float32; combined with a *numpy* float64 scalar they become float64."""
+    for qual in ("PFITSFile.read_subint", "PFITSFile.read_subint_pol"):
+        fn = prog.func(PFITS, qual)
+        fl = flow_of(fn)
+        culprit: list[tuple[ast.AST, str]] = []
+
+        def kind(e: ast.AST, at: int, depth: int = 0) -> str:
+            if depth > 12:
+                return "any"
+            if isinstance(e, ast.Constant) and isinstance(e.value, (int, float)) and not isinstance(e.value, bool):
+                return "weak"
+            if isinstance(e, ast.Name):
+                ds = [d for d in fl.reaching(e.id, at) if d.kind in ("assign", "aug") and d.value is not None]
+                if not ds:
+                    return "any"
+                kinds = {kind(d.value, d.node, depth + 1) for d in ds if not any(isinstance(n, ast.Name) and n.id == e.id for n in ast.walk(d.value))}
+                kinds.discard("any")
+                return kinds.pop() if len(kinds) == 1 else ("f64" if "f64" in kinds else "any")
+            if isinstance(e, (ast.Subscript, ast.Attribute)):
+                return kind(e.value, at, depth + 1) if isinstance(e, ast.Subscript) else "any"
+            if isinstance(e, ast.UnaryOp):
+                return kind(e.operand, at, depth + 1)
+            if isinstance(e, ast.Call):
+                d = dotted(e.func) or ""
+                if d in F32_FUNCS:
+                    return "f32"
+                if d in WEAK_FUNCS:
+                    return "weak"
+                if isinstance(e.func, ast.Attribute) and e.func.attr == "astype" and e.args and norm(e.args[0]) in ("np.float32", "'float32'"):
+                    return "f32"
+                if d in ("np.zeros", "np.empty", "np.ones") and any(k.arg == "dtype" and norm(k.value) in ("np.float32", "'float32'") for k in e.keywords):
+                    return "f32"
+                if d in F64_SCALAR_FUNCS and all(kind(a, at, depth + 1) == "weak" for a in e.args):
+                    return "f64"
+                if d.endswith("read_subint"):
+                    return "f32"
+                return "any"
+            if isinstance(e, ast.BinOp):
+                l, r = kind(e.left, at, depth + 1), kind(e.right, at, depth + 1)
+                if "f64" in (l, r):
+                    if (l == "f64" and r in ("f32", "any")) or (r == "f64" and l in ("f32", "any")):
+                        culprit.append((e, f"`{norm(e.left)[:40]}` is {l}, `{norm(e.right)[:40]}` is {r}"))
+                    return "f64"
+                if "f32" in (l, r):
+                    return "f32"
+                if l == r == "weak":
+                    return "weak"
+                return "any"
+            return "any"
+
+        for st in body_walk(fn.node):
+            if isinstance(st, (ast.Assign, ast.AugAssign, ast.Return)) and getattr(st, "value", None) is not None:
+                try:
+                    kind(st.value, fl.cfg.node_for(st))
+                except AnalysisError:
+                    pass
+        key = f"dtype:{qual}"
+        if culprit:
+            e, why = culprit[0]
+            res.bad("R7", fn, e, f"a numpy float64 scalar is combined with the float32 samples ({why}): under NumPy 2 the block becomes float64, so "
+                    f"read_plan yields float64 and the typed streaming kernels reject it", key=key)
+        else:
+            res.ok("R7", fn, fn.node, "no numpy float64 scalar is combined with the float32 sample arrays", key=key, construct=qual)
 
 
 def run(prog: Program, res: Result, tier: str) -> None:
@@ -322,7 +398,9 @@ def run(prog: Program, res: Result, tier: str) -> None:
         r"TimeDelta\(float\(self\.header\['STT_SMJD'\]\), float\(self\.header\['STT_OFFS'\]\), format='sec'\)", canon(pe)) is not None
     (res.ok if ok else res.bad)("R6", ph.methods["tstart"], ph.methods["tstart"].node, "start epoch = STT_IMJD days + (STT_SMJD + STT_OFFS) seconds" if ok else
                                 "PrimaryHdr.tstart is no longer STT_IMJD + STT_SMJD + STT_OFFS", construct="tstart", key="key:tstart")
+    _sample_dtype(prog, res)
     res.floor("R6", 14)
+    res.floor("R7", 2)
     res.floor("R1", 8)
     res.floor("R2", 6)
     res.floor("R3", 8)
@@ -334,6 +412,8 @@ R = "sigpyproc/readers.py"
 H = "sigpyproc/header.py"
 P = "sigpyproc/io/pfits.py"
 MUTANTS = [
+    {"id": "c18-revert-F28", "file": "sigpyproc/io/pfits.py", "expect": "C18.R",
+     "old": "            scale = np.float32(1.0 / np.sqrt(2.0))", "new": "            scale = 1.0 / np.sqrt(2.0)"},
     {"id": "c18-revert-F22", "file": R, "expect": "C18.R1",
      "old": "            startsamp + nsamps + self.sub_hdr.subint_samples - 1\n", "new": "            nsamps + self.sub_hdr.subint_samples - 1\n"},
     {"id": "c18-revert-F23-rows", "file": R, "expect": "C18.R",
